@@ -48,4 +48,8 @@ CLAIMED = {
    text="One generated project model is rendered under two spellings drawn from the listed meaning-preserving rewrites (consistent renaming incl. deliberately colliding local ids, absolute/relative references, depends/precedes inversion incl. gapped edges, shift reference vs inline hours, comments/whitespace/CRLF, macro extraction); both texts are scheduled by the real code and all dates must agree after mapping identifiers back.",
    note="The model keeps true dependency targets, so the comparison does not depend on how scriptplan resolved either text; macro parameters are not generated (undocumented here).",
    technique="metamorphic property-based testing (Hypothesis): two renderings of one model"),
+ "C16": dict(
+   text="Generated projects with scenario trees (1-4 scenarios, depth <= 3) and scenario-specific effort/start/end overrides; every scenario of the multi-scenario run is compared, dates and per-scenario ledger, with a single-scenario run of the text in which that scenario's effective values are written as plain attributes (differential / metamorphic relation). Covers 'adding scenarios changes nothing', 'no overrides = parent' and 'nothing carries over'.",
+   note="The effective-value rule (own, else nearest ancestor scenario, else plain) is the checker's reading of the statement; later scenarios whose overrides need a different horizon than the first are a recorded finding (F03).",
+   technique="differential / metamorphic property-based testing (Hypothesis): multi-scenario run vs single-scenario runs"),
 }
